@@ -1,5 +1,6 @@
 // fence.cpp — C17 (fence part): writes into the debug fences beside nodes of the low-level
 // allocators must be reported on deallocation with the first corrupted byte; in-bounds writes never.
+// Writes go anywhere into the fence the allocator wrote (observed extent, see fence_run).
 #include <algorithm>
 #include <cstring>
 
@@ -12,6 +13,16 @@
 
 #include "../vf/vf.hpp"
 
+#if defined(__has_feature)
+#if __has_feature(address_sanitizer)
+#include <sanitizer/asan_interface.h>
+#define VF_READABLE(p) (!__asan_address_is_poisoned(p))
+#endif
+#endif
+#ifndef VF_READABLE
+#define VF_READABLE(p) true
+#endif
+
 namespace fm = foonathan::memory;
 using vf::CaseInfo;
 using vf::Program;
@@ -21,6 +32,19 @@ using vf::Verdict;
 namespace
 {
     constexpr size_t F = fm::detail::debug_fence_size; // guaranteed fence bytes on each side
+
+    // The fence the allocator really wrote may be longer than debug_fence_size (max_alignment bytes
+    // beside heap/malloc/new nodes, one page beside virtual memory nodes).  Its extent is observed,
+    // not assumed: the run of fence-pattern bytes adjacent to the node, inside memory that belongs
+    // to the allocation, at most `cap` bytes.  Every byte of that run is a fence byte.
+    size_t fence_run(const char* from, long step, size_t cap)
+    {
+        size_t n = 0;
+        for (const char* q = from; n < cap; q += step, ++n)
+            if (!VF_READABLE(q) || static_cast<unsigned char>(*q) != 0xFD)
+                break;
+        return n;
+    }
 
     struct Report
     {
@@ -95,7 +119,17 @@ namespace
                     break;
                 }
         long lowest_pre = 1, lowest_post = -1; // offsets relative to node / node+bytes
-        bool touched_first = false, touched_last = false, off_edge = false;
+        bool touched_first = false, touched_last = false, off_edge = false, deep = false;
+        size_t cap = std::is_same<A, fm::virtual_memory_allocator>::value ? fm::virtual_memory_page_size : mxal;
+        size_t Fpre = 0, Fpost = 0;
+        if (v.ok && F)
+        {
+            Fpre  = fence_run(node - 1, -1, cap);
+            Fpost = fence_run(node + bytes, 1, cap);
+            if (Fpre < F || Fpost < F)
+                fail("fence-short", "fence of " + std::to_string(Fpre) + " / " + std::to_string(Fpost)
+                                        + " bytes before / after the node, debug_fence_size is " + std::to_string(F));
+        }
         if (v.ok)
             for (auto& op : p.ops)
             {
@@ -118,7 +152,8 @@ namespace
                 case K_write_pre:
                     if (F && val != 0xFD)
                     {
-                        long off = -1 - long(op.a % F); // -1 .. -F
+                        long off = -1 - long(op.a % (op.b % 2 ? Fpre : std::min<size_t>(Fpre, 16))); // -1 .. -Fpre
+                        deep |= size_t(-off) > F;
                         node[off] = char(val);
                         if (lowest_pre > 0 || off < lowest_pre)
                             lowest_pre = off;
@@ -130,7 +165,8 @@ namespace
                 case K_write_post:
                     if (F && val != 0xFD)
                     {
-                        long off = long(op.a % F); // 0 .. F-1 past the end
+                        long off = long(op.a % (op.b % 2 ? Fpost : std::min<size_t>(Fpost, 16))); // 0 .. Fpost-1 past the end
+                        deep |= size_t(off) >= F;
                         node[bytes + size_t(off)] = char(val);
                         if (lowest_post < 0 || off < lowest_post)
                             lowest_post = off;
@@ -192,6 +228,8 @@ namespace
             ci.classes.insert("in-bounds-only");
         if (array)
             ci.classes.insert("array");
+        if (deep)
+            ci.classes.insert("beyond-debug_fence_size");
         ci.counters["reports"] += reports.size();
         return v;
     }
